@@ -30,6 +30,7 @@ SYMTAB = {
     "C13": ("Exec.RunC13", "(gtab_c13 O T)"),
     "C14": ("Exec.RunC14", "(gtab_c14 O T)"),
     "C15": ("Exec.RunC15", "(gtab_c15 O T A)"),
+    "C18": ("Exec.RunC18", "(gtab_c18 O A toNat toN)"),
 }
 
 UN_O = {"opp": "opp O", "inv": "inv O"}
@@ -46,7 +47,8 @@ def qlit(s):
 
 
 class Path:
-    def __init__(self, p):
+    def __init__(self, p, conc=None):
+        self.conc = conc or {}
         self.nodes = p["nodes"]
         self.conds = p["conds"]
         self.out = p["out"]
@@ -68,6 +70,8 @@ class Path:
         n = self.nodes[i]
         k = n[0]
         if k == "in":
+            if str(n[1]) in self.conc:
+                return "(ofQ O %s)" % qlit(self.conc[str(n[1])])
             return "x%d" % n[1]
         if k == "const":
             if n[1] == "0":
@@ -141,19 +145,32 @@ class Path:
         raise ValueError(o["t"])
 
 
-def lemma(fn, arity, k, path, table):
-    p = Path(path)
+def lemma(fn, arity, k, path, table, conc=None):
+    conc = conc or {}
+    p = Path(path, conc)
     conds = [p.cond(c) for c in p.conds]
     out = p.outlit()
-    xs = " ".join("x%d" % i for i in range(arity))
+    free = [i for i in range(arity) if str(i) not in conc]
+    xs = " ".join("x%d" % i for i in free)
     s = "Lemma sym_%s_%d : " % (re.sub(r"\W", "_", fn), k)
-    if arity:
+    if free:
         s += "forall %s : F,\n" % xs
+    # inputs the code needed as concrete numbers (indices, selectors, counts): constants of the lemma; the dispatcher
+    # reads them through toNat / toN, whose values on these constants are hypotheses (true of the Qc instance)
+    seen = set()
+    for i in sorted(conc, key=int):
+        v = conc[i]
+        if v in seen or "/" in v or v.startswith("-"):
+            continue
+        seen.add(v)
+        s += "  toNat (ofQ O %s) = %d%%nat ->\n" % (qlit(v), min(int(v), 1000))
+        s += "  toN (ofQ O %s) = %s%%N ->\n" % (qlit(v), v)
     for nm, t in p.lets:
         s += "  let %s := %s in\n" % (nm, t)
     for c in conds:
         s += "  %s ->\n" % c
-    s += "  grun %s \"%s\" [%s] = %s.\n" % (table, fn, "; ".join("x%d" % i for i in range(arity)), out)
+    args = ["(ofQ O %s)" % qlit(conc[str(i)]) if str(i) in conc else "x%d" % i for i in range(arity)]
+    s += "  grun %s \"%s\" [%s] = %s.\n" % (table, fn, "; ".join(args), out)
     s += "Proof. sym_tie Fth Hasym O T A. Qed.\n"
     return s
 
@@ -161,7 +178,7 @@ def lemma(fn, arity, k, path, table):
 def write_path_file(path, pid, d, k):
     """one lemma (path k of function d) in its own file, so that the paths of a function are proved in parallel"""
     mod, table = SYMTAB[pid]
-    l = lemma(d["f"], d["arity"], k, d["paths"][k], table)
+    l = lemma(d["f"], d["arity"], k, d["paths"][k], table, d.get("conc"))
     if len(l) > MAX_TERM:
         return False
     with open(path, "w") as f:
@@ -171,7 +188,7 @@ def write_path_file(path, pid, d, k):
         f.write("From CG Require Import Scalar Exec.ExecQ Exec.Args %s Proofs.Alg Proofs.SymTac.\n" % mod)
         f.write("Import ListNotations.\nOpen Scope string_scope.\n")
         f.write("Section S.\nVariable F : Type.\nVariable O : Ops F.\nVariable T : Trig F.\nVariable A : Approx F.\n"
-                "Variable toNat : F -> nat.\n"
+                "Variable toNat : F -> nat.\nVariable toN : F -> N.\n"
                 "Hypothesis Fth : field_theory (zero O) (one O) (add O) (mul O) (sub O) (opp O) (div O) (inv O) eq.\nAdd Field FF : Fth.\n"
                 "Hypothesis Hasym : LtAsym O.\n")
         f.write(l)
@@ -211,7 +228,8 @@ def run_sym_tie(pid, symfile, workdir, timeout=240, defer=(), workers=16):
         files = []
         try:
             for k in range(len(d["paths"])):
-                path = os.path.join(workdir, "Sym_%s_%s_%d_p%d.v" % (pid, re.sub(r"\W", "_", d["f"]), d["arity"], k))
+                sig = ("_c" + "_".join(re.sub(r"\W", "m", v)[:12] for _, v in sorted(d.get("conc", {}).items(), key=lambda kv: int(kv[0])))) if d.get("conc") else ""
+                path = os.path.join(workdir, "Sym_%s_%s_%d%s_p%d.v" % (pid, re.sub(r"\W", "_", d["f"]), d["arity"], sig, k))
                 if not write_path_file(path, pid, d, k):
                     files = None
                     break
@@ -230,9 +248,9 @@ def run_sym_tie(pid, symfile, workdir, timeout=240, defer=(), workers=16):
     bad = {}
     for (d, k, path), (rc, out, wall) in zip(jobs, outs):
         if rc != 0:
-            bad.setdefault((d["f"], d["arity"]), []).append((k, rc, out, path))
+            bad.setdefault(id(d), []).append((k, rc, out, path))
     for d, files in recs:
-        b = bad.get((d["f"], d["arity"]))
+        b = bad.get(id(d))
         if not b:
             if d["f"] not in res["tied"]:
                 res["tied"].append(d["f"])
@@ -382,12 +400,20 @@ def probe_inputs(d, seed=1, per_path=6, max_total=400):
                            "why": why})
     if arity == 0:
         return probes
+    conc = {int(k): Fraction(v) for k, v in d.get("conc", {}).items()}
+    _rnd = rnd_generic
+
+    def rnd_fixed(rng_, n):
+        xs = _rnd(rng_, n)
+        for k_, v_ in conc.items():
+            xs[k_] = v_
+        return xs
     for pi, p in enumerate(d["paths"]):
         nodes, conds = p["nodes"], p["conds"]
         # (A) rejection sampling of points on the path
         got = 0
         for _ in range(300):
-            xs = rnd_generic(rng, arity)
+            xs = rnd_fixed(rng, arity)
             vals = eval_nodes(nodes, xs)
             if all(cond_holds(c, vals) is not False for c in conds):
                 push(xs, "path %d" % pi)
@@ -403,8 +429,10 @@ def probe_inputs(d, seed=1, per_path=6, max_total=400):
             for t in targets:
                 found = False
                 for attempt in range(40):
-                    xs = rnd_generic(rng, arity)
+                    xs = rnd_fixed(rng, arity)
                     k = rng.randrange(arity)
+                    if k in conc:
+                        continue
                     xk = solve_linear(nodes, arity, xs, a, b, t, k)
                     if xk is None:
                         continue
